@@ -33,6 +33,7 @@ CH = z3.Function("CH", z3.IntSort(), V.Val)        # what the k-th stream.read(1
 LINE = z3.Function("LINE", z3.IntSort(), z3.IntSort())
 COL = z3.Function("COL", z3.IntSort(), z3.IntSort())
 INIT_LINE, INIT_COL = z3.Int("init.line"), z3.Int("init.col")
+ONECHAR = z3.Function("one_char_or_empty", V.Val, z3.BoolSort())  # what read(1) returns: a single character, or "" at the end
 k = z3.Int("k")
 
 
@@ -49,7 +50,7 @@ def is_terminated_before(j):
 def text_axioms():
     """the specification of the text and of line / column numbering"""
     return z3.And(
-        z3.ForAll([k], z3.Implies(k >= 0, z3.And(V.is_str(CH(k)), z3.Length(V.Val.s(CH(k))) <= 1)), patterns=[CH(k)]),
+        z3.ForAll([k], z3.Implies(k >= 0, z3.And(V.is_str(CH(k)), ONECHAR(CH(k)))), patterns=[CH(k)]),
         LINE(0) == INIT_LINE, COL(0) == INIT_COL,
         z3.ForAll([k], z3.Implies(k >= 1, LINE(k) == z3.If(is_terminated_before(k), LINE(k - 1) + 1, LINE(k - 1))), patterns=[LINE(k)]),
         z3.ForAll([k], z3.Implies(k >= 1, COL(k) == z3.If(is_terminated_before(k), 0, COL(k - 1) + 1)), patterns=[COL(k)]),
@@ -90,6 +91,7 @@ def setup(eng, st):
     eng.field_types[("StreamReader", "_stream")] = lambda v: (z3.And(V.is_ref(v), V.cls_of(V.Val.a(v)) == eng.class_id(TextStream)), TextStream)
     st.ghost["n_read"] = z3.Int("n_read.0")
     st.assume(text_axioms())
+    eng.single_char_pred = ONECHAR
     from pyvc.contract import INT as _INT, STR as _STR
 
     self_t = z3.Const("arg.self", V.Val)
@@ -142,7 +144,16 @@ def nth_pattern(seq, idx):
 
 
 def forall_k(body, *pats):
-    return z3.ForAll([k], body, patterns=[p for p in pats if p is not None])
+    ok = []
+    for p_ in pats:
+        if p_ is None or not _mentions(p_, k):
+            continue
+        try:
+            z3.ForAll([k], body, patterns=[p_])
+            ok.append(p_)
+        except z3.Z3Exception:
+            pass
+    return z3.ForAll([k], body, patterns=ok) if ok else z3.ForAll([k], body)
 
 
 ANYIDX = z3.Int("any_index")  # an arbitrary index: a goal stated for it holds for every index
@@ -198,18 +209,26 @@ def build(active_known=frozenset()):
     pack.assume("only StreamReader is under contract; the form readers on top of it (totality, SyntaxError-only, EOF classification) are not")
     mod = "basilisp.lang.reader:StreamReader."
 
-    def op(name):
-        c = pack.contract(mod + name)
+    def op(name, moves=False, reads=False):
+        """a StreamReader operation: proved here once, and used *by contract* wherever it is called (by the other
+        operations and by the form readers)"""
+        c = pack.contract(mod + name, modular=True)
         c.param("self", OBJ(SR))
-        c.requires("the reader is well-formed", lambda a: INV(a.eng, a.pre.st, a.self))
+        # (universal clauses: quantified where the clause is assumed, stated for an arbitrary index where it is a goal)
+        c.requires("the reader is well-formed", lambda a: z3.And(*[f for _, f in INV_parts(a.eng, a.pre.st, a.self, as_goal=not a.assuming)]))
         inv_after(c)
+        c.modifies_ = ["_idx"] if moves else []
+        if reads:
+            c.modifies_aux = ("dqv", "dqn")
+            c.modifies_ghost = ("n_read",)
+            c.ensures("reading only appends: at least as many characters have been read as before", lambda a: nreads(a.post.st) >= nreads(a.pre.st))
         return c
 
     def inv_after(c, on_raise=False):
         """one postcondition per conjunct of the invariant"""
         for i in range(6):
             nm = INV_PART_NAMES[i]
-            fn = lambda a, i=i: INV_parts(a.eng, a.post.st, a.self, as_goal=True)[i][1]  # noqa: E731
+            fn = lambda a, i=i: INV_parts(a.eng, a.post.st, a.self, as_goal=not a.assuming)[i][1]  # noqa: E731
             c.ensures("the reader stays well-formed: " + nm, fn)
             if on_raise:
                 c.ensures_on_raise("the reader stays well-formed: " + nm, fn)
@@ -237,21 +256,22 @@ def build(active_known=frozenset()):
     c.ensures("loc is (line, column) of the character at the current position: lines are counted by LF, CRLF and lone CR alike, columns restart at 0 after each",
               lambda a: z3.And(V.is_ref(a.result), V.seq_of(V.Val.a(a.result)) == z3.Concat(z3.Unit(V.mk_int(LINE(pos(a.pre.st, a.self)))), z3.Unit(V.mk_int(COL(pos(a.pre.st, a.self))))), keeps(a, 0)))
 
-    c = op("next_char")
+    c = op("next_char", moves=True, reads=True)
     c.modifies("_idx")
     c.frame_aux = ("dqv", "dqn")  # the three deques grow; that they are the only ones touched is part of `keeps` + INV
     c.raises()
     c.ensures("next_char moves one character forward and returns the character now under the cursor",
               lambda a: z3.And(a.result == CH(pos(a.pre.st, a.self) + 1), keeps(a, 1)))
 
-    c = op("advance")
+    c = op("advance", moves=True, reads=True)
     c.modifies("_idx")
     c.frame_aux = ("dqv", "dqn")
     c.raises()
     c.ensures("advance moves one character forward and returns the character that was under the cursor",
               lambda a: z3.And(a.result == CH(pos(a.pre.st, a.self)), keeps(a, 1)))
 
-    c = op("pushback")
+    c = op("pushback", moves=True)
+    c.may_raise = [(IndexError, None)]
     c.modifies("_idx")
     c.raises(IndexError)
     c.raises_only_if("the position before the current one has left the pushback window", (IndexError,),
@@ -286,7 +306,248 @@ def build(active_known=frozenset()):
         if c.replay_ is None:
             c.replay(lambda m, ctx, ob: SR_REPLAY)
             c.replay_without_model = True
+    add_prefix_readers(pack)
     return pack
+
+
+# ----------------------------------------------------------------------------- prefix readers: "a form is still owed"
+NOMORE = z3.Function("no_more_forms_from", z3.IntSort(), z3.BoolSort())  # only whitespace / comments up to the end of the text
+EOFV = z3.Const("ctx.eof.value", V.Val)
+
+
+def _form_classes():
+    from basilisp.lang import keyword as kw, map as lmap, symbol as sym, vector as vec
+
+    class FSym(sym.Symbol):
+        __slots__ = ()
+
+    class FKw(kw.Keyword):
+        __slots__ = ()
+
+    class FMap(lmap.PersistentMap):
+        __slots__ = ()
+
+    class FVec(vec.PersistentVector):
+        __slots__ = ()
+
+    class FOther:
+        """any other form (numbers, strings, lists ... and the eof value): no metadata support"""
+
+    return [FSym, FKw, FMap, FVec, FOther]
+
+
+FORM_CLASSES = _form_classes()
+META_OF = z3.Function("meta_of_form", V.Val, V.Val)
+
+
+def add_prefix_readers(pack):
+    """quote, deref, unquote, unquote-splicing, syntax-quote, metadata and the #_ comment macro read a prefix and then
+    the next form through ``_read_next_consuming_comment``.  That function is used by contract (assumed, by induction
+    over the nesting depth): it returns the ``ctx.eof`` value exactly when nothing but whitespace and comments is left,
+    returns a real form otherwise, keeps the stream reader well-formed, and raises only syntax errors - and it does not
+    raise when the text has simply ended.  From the property: a prefix reader whose form is still owed must raise
+    UnexpectedEOFError (the REPL's cue), and what it returns never contains the eof value."""
+    from basilisp.lang import reader as rd
+
+    SR, RC = rd.StreamReader, rd.ReaderContext
+
+    def psetup(eng, st):
+        lid = eng.class_id(list)
+        eng.class_id(RC)
+        srid = eng.class_id(SR)
+        eng.field_types[("ReaderContext", "_reader")] = lambda v: (z3.And(V.is_ref(v), V.cls_of(V.Val.a(v)) == srid), SR)
+        for f in ("_syntax_quoted", "_gensym_env"):
+            # unbounded deques used as stacks (append / pop / [-1]): modelled as lists
+            eng.field_types[("ReaderContext", f)] = lambda v: (z3.And(V.is_ref(v), V.cls_of(V.Val.a(v)) == lid), list)
+        ctx_t = z3.Const("arg.ctx", V.Val)
+
+        def elem_type(e, s, dq):
+            from pyvc.contract import INT as _INT, STR as _STR
+
+            r = fld(s, ctx_t, "_reader")
+            for f, t in (("_line", _INT), ("_col", _INT), ("_buffer", _STR)):
+                if z3.eq(z3.simplify(dq.t), z3.simplify(fld(s, r, f))):
+                    return t
+            return None
+
+        eng.elem_type = elem_type
+
+        def next_form(e, s, args, k):
+            ctx = e.lift(args[0], s)
+            r = fld(s, ctx, "_reader")
+            p = pos(s, r)
+            res = V.fresh_val("next_form")
+            # the reader moved on (arbitrarily) and is still well-formed
+            s.ghost["n_read"] = z3.Int(V.fresh_name("n_read"))
+            s.assume(s.ghost["n_read"] >= 2)
+            e.havoc_heap(s, ["_idx"])
+            for nm in ("dqv", "dqn"):
+                if nm in s.aux:
+                    s.aux[nm] = z3.Const(V.fresh_name(nm), s.aux[nm].sort())
+            s.assume(INV(e, s, r), e.external_ref_fact(s, res))
+            s.assume(z3.Implies(V.is_ref(res), z3.Or(*[V.cls_of(V.Val.a(res)) == e.class_id(fc) for fc in FORM_CLASSES])))
+            s_raise = s.copy()
+            s.assume((res == fld(s, ctx, "_eof")) == NOMORE(p))
+            s.ghost["subreads"] = list(s.ghost.get("subreads", [])) + [(p, res)]
+            yield s, SV(res)
+            s_raise.assume(z3.Not(NOMORE(p)))
+            s_raise.ghost["subreads"] = list(s_raise.ghost.get("subreads", [])) + [(p, None)]
+            yield s_raise, Raise(Exc(rd.SyntaxError, ("syntax error in the next form",), note="raised while reading the next form"))
+
+        # forms returned by the sub-reader: instances of stand-in subclasses of the real form classes (so isinstance
+        # tests see the real classes) whose metadata operations are opaque
+        eng.closed_world_classes = True
+        for fc in FORM_CLASSES:
+            eng.class_id(fc)
+            eng.method_models[(fc, "with_meta")] = Model("IWithMeta.with_meta", lambda e, s, a, k, fc=fc: iter([(s, e.alloc(s, fc))]))
+            def meta_of(e, s, a, k):
+                r = META_OF(e.lift(a[0], s))
+                s.assume(z3.Or(V.is_none(r), z3.And(V.is_ref(r), V.Val.a(r) <= 0, V.cls_of(V.Val.a(r)) == e.class_id(FORM_CLASSES[2]))))
+                yield s, SV(r)
+
+            mm_ = Model("IMeta.meta (nil or a map)", meta_of)
+            mm_.is_property = True
+            eng.method_models[(fc, "meta")] = mm_
+            eng.method_models[(fc, "cons")] = Model("IPersistentCollection.cons", lambda e, s, a, k, fc=fc: iter([(s, e.alloc(s, fc))]))
+        from basilisp.lang import map as lmap_
+
+        eng.models[id(lmap_.map)] = Model("lmap.map (some map)", lambda e, s, a, k: iter([(s, e.alloc(s, FORM_CLASSES[2]))]))
+        eng.models[id(rd._read_next_consuming_comment)] = Model("_read_next_consuming_comment (by contract)", next_form)
+        eng.models[id(rd._process_syntax_quoted_form)] = Model("_process_syntax_quoted_form", lambda e, s, a, k: iter([(s, SV(V.fresh_val("expanded")))]))
+        lib.install_wrappers(eng)
+
+    def reader_of(a):
+        return fld(a.pre.st, a.ctx, "_reader")
+
+    def prefix(name, ch, label=None, qual=None):
+        c = pack.contract("basilisp.lang.reader:" + (qual or name))
+        if label:
+            c.label = label
+        c.param("ctx", OBJ(RC))
+        c.setup(psetup)
+        c.requires("the stream reader is well-formed and stands on the prefix character",
+                   lambda a: z3.And(INV(a.eng, a.pre.st, reader_of(a)), CH(pos(a.pre.st, reader_of(a))) == V.mk_str(ch)))
+        c.raises(rd.SyntaxError)
+
+        def owed(a):
+            return [z3.Not(NOMORE(p)) for p, _ in a.post.st.ghost.get("subreads", [])]
+
+        c.ensures("a normal return means every form owed after the prefix was really there (the text did not end first)", lambda a: z3.And(*owed(a)) if owed(a) else z3.BoolVal(True))
+        c.ensures_on_raise("when the text ends where a form is still owed, the error is UnexpectedEOFError (the REPL's cue to keep reading)",
+                           lambda a: z3.Implies(z3.Or(*[NOMORE(p) for p, _ in a.post.st.ghost.get("subreads", [])] or [z3.BoolVal(False)]),
+                                                z3.BoolVal(a.exc.pycls is not None and issubclass(a.exc.pycls, rd.UnexpectedEOFError))))
+        c.replay(lambda m, ctx, ob: PREFIX_REPLAY)
+        c.replay_without_model = True
+        return c
+
+    def payload_is_form(a, idx=1):
+        """the list returned is (head, form) and form is what the sub-read returned, which is not the eof value"""
+        st = a.post.st
+        items = V.seq_of(V.Val.a(fld(st, a.result, "_inner")))
+        subs = st.ghost.get("subreads", [])
+        return z3.And(z3.Length(items) == 2, items[idx] == subs[-1][1], items[idx] != fld(a.pre.st, a.ctx, "_eof")) if subs and subs[-1][1] is not None else z3.BoolVal(False)
+
+    c = prefix("_read_quoted", "'")
+    c.ensures("'form reads as (quote form), never with the eof value inside", payload_is_form)
+    c = prefix("_read_deref", "@")
+    c.ensures("@form reads as (deref form), never with the eof value inside", payload_is_form)
+    c = prefix("_read_unquote", "~")
+    c.ensures("~form / ~@form read as (unquote form) / (unquote-splicing form), never with the eof value inside", payload_is_form)
+    prefix("_read_syntax_quoted", "`")
+    prefix("_read_comment_macro", "_")
+    prefix("_read_meta", "^", qual="_read_meta")
+
+    # ---- line comments: a comment ends at the first line terminator - LF or CR, whatever the line-ending style - or
+    # at the end of the text; it must not swallow anything after that
+    def is_nl(c):
+        return z3.Or(c == V.mk_str("\n"), c == V.mk_str("\r"))
+
+    c = pack.contract("basilisp.lang.reader:_read_comment")
+    c.param("ctx", OBJ(RC))
+    c.setup(psetup)
+    c.requires("the stream reader is well-formed and stands on the comment character",
+               lambda a: z3.And(INV(a.eng, a.pre.st, reader_of(a)), z3.Or(CH(pos(a.pre.st, reader_of(a))) == V.mk_str(";"), CH(pos(a.pre.st, reader_of(a))) == V.mk_str("!"))))
+    c.raises()
+
+    def comment_inv(ctx):
+        st, pre = ctx.st, ctx.entry.st
+        r = fld(pre, ctx["ctx"], "_reader")
+        # (the loop is entered right after the comment character was consumed: `pre` is the state at loop entry)
+        first, p = pos(pre, r), pos(st, r)
+        return [
+            ("the stream reader stays well-formed and is still the context's reader", z3.And(INV(ctx.eng, st, r), fld(st, ctx["ctx"], "_reader") == r, ctx["reader"] == r)),
+            ("the cursor has not moved back", p >= first),
+            ("no character of the comment so far ends a line or the text",
+             forall_k(z3.Implies(z3.And(k >= first, k < p), z3.And(z3.Not(is_nl(CH(k))), CH(k) != V.mk_str(""))), CH(k))),
+        ]
+
+    c.loop(0, invariant=comment_inv, frame=["_idx"], lists=False, ghost=("n_read",), aux=("dqv", "dqn"))
+    c.frame_aux = ("dqv", "dqn")
+
+    def comment_post(a):
+        pre, post = a.pre.st, a.post.st
+        r = reader_of(a)
+        p0, p = pos(pre, r), pos(post, r)
+        body_clean = z3.Implies(z3.And(ANYIDX > p0, ANYIDX < p - 1), z3.And(z3.Not(is_nl(CH(ANYIDX))), CH(ANYIDX) != V.mk_str("")))
+        ended_by_newline = z3.And(a.result == a.eng.lift(rd.COMMENT, pre), p >= p0 + 2, is_nl(CH(p - 1)), body_clean)
+        ended_by_eof = z3.And(a.result == fld(pre, a.ctx, "_eof"), CH(p) == V.mk_str(""), body_clean, z3.Not(is_nl(CH(p - 1))) if True else True)
+        return z3.Or(ended_by_newline, z3.And(ended_by_eof, z3.Or(p == p0 + 1, z3.Not(is_nl(CH(p - 1))))))
+
+    c.ensures("the comment ends right after the first LF or CR following it (either one: a lone CR ends the line too), or at the end of the text; nothing after that is consumed", comment_post)
+    c.replay(lambda m, ctx, ob: COMMENT_REPLAY)
+    c.replay_without_model = True
+
+
+COMMENT_REPLAY = r'''
+from basilisp.lang import reader
+bad = []
+for nl in ("\n", "\r\n", "\r"):
+    for text, want in (("(a ;c%s b)" % nl, "[(a b)]"), ("x ; trailing%s(y)" % nl, "[x, (y)]"), ("#!shebang%s(main)" % nl, "[(main)]"), ("[1 ;; two%s 2]" % nl, "[[1 2]]"), ("; only", "[]")):
+        try:
+            got = "[" + ", ".join(repr(f) if not isinstance(f, str) else f for f in map(lambda f: f.lrepr() if hasattr(f, "lrepr") else repr(f), reader.read_str(text))) + "]"
+        except Exception as e:
+            got = type(e).__name__ + ": " + str(e)[:50]
+        if got != want:
+            bad.append("%r reads as %s, expected %s" % (text, got, want))
+for line in bad[:10]:
+    print(line)
+print("REPRODUCED" if bad else "not reproduced")
+'''
+
+
+PREFIX_REPLAY = r"""
+from basilisp.lang import reader
+bad = []
+EOF = reader.EOF
+def contains_eof(form):
+    if form is EOF:
+        return True
+    try:
+        return any(contains_eof(x) for x in form) if not isinstance(form, (str, bytes)) else False
+    except TypeError:
+        return False
+for text in ["'", "@", "~", "~@", "`", "^", "^:a", "^{:a 1}", "#_", "'  ", "' ;c\n", "@ ", "^:a  ", "(quote", "'(", "'a", "@a", "~a", "~@a", "`a", "^:a b", "#_a"]:
+    complete = text in ("'a", "@a", "~a", "~@a", "`a", "^:a b", "#_a")
+    try:
+        forms = list(reader.read_str(text))
+        if not complete:
+            bad.append("%r: a form is still owed, yet reading returned %r" % (text, forms))
+        elif any(contains_eof(f) for f in forms):
+            bad.append("%r: the eof value is inside the form read: %r" % (text, forms))
+    except reader.UnexpectedEOFError:
+        if complete:
+            bad.append("%r: complete text reported as unexpected end of input" % (text,))
+    except reader.SyntaxError as e:
+        if not complete:
+            bad.append("%r: a form is still owed, yet the error is a plain SyntaxError (%s), not UnexpectedEOFError" % (text, str(e)[:60]))
+        else:
+            bad.append("%r: complete text raised %s" % (text, e))
+    except Exception as e:
+        bad.append("%r: %s: %s" % (text, type(e).__name__, e))
+for line in bad[:14]:
+    print(line)
+print("REPRODUCED" if bad else "not reproduced")
+"""
 
 
 SR_REPLAY = r'''
